@@ -30,10 +30,14 @@ func plan(prop string) []scenarioDef {
 		return []scenarioDef{{"COMP-timer", 20, genTimerConfig, RunTimerComp}, {"RT", 1, genRTConfig, RunRT}}
 	case "C17":
 		return []scenarioDef{{"COMP-filter", 39, genFilterConfig, RunFilterComp}, {"COMP-filter-sweep", 1, genFilterSweepConfig, RunFilterSweep}}
-	case "C01", "C03", "C04":
-		// oracles evaluated at the commit callback hold on every shape: mostly plain NET runs, and one run in six on
+	case "C04":
+		// external validity depends on what happens around the consumer's validation call (slow, blocking, failing,
+		// overtaken by a timeout): a larger share of RT runs than for C01 / C03
+		return []scenarioDef{{"NET", 6, genNetConfig, RunNet}, {"RT", 1, genRTConfig, RunRT}}
+	case "C01", "C03":
+		// oracles evaluated at the commit callback hold on every shape: mostly plain NET runs, and one run in fifteen (about a third of the time) on
 		// the RT shape (slow / blocking / failing consumers on one or all nodes, worker-select control, preemptions)
-		return []scenarioDef{{"NET", 5, genNetConfig, RunNet}, {"RT", 1, genRTConfig, RunRT}}
+		return []scenarioDef{{"NET", 14, genNetConfig, RunNet}, {"RT", 1, genRTConfig, RunRT}}
 	default:
 		// message-level oracles (C07 - C11) attribute effects to the delivery made in the same step: NET only
 		return []scenarioDef{netScenario}
